@@ -226,6 +226,9 @@ from collections import OrderedDict, UserString
 from typing import Any, Dict, List, Mapping, MutableMapping, MutableSequence, Optional, Sequence, Union
 import yaml
 import yatiml
+
+class _Refusal(Exception):
+    def __str__(self): return 'refused'
 '''
 
 
@@ -289,8 +292,11 @@ def class_source(c):
                 c['name'], ', '.join('({!r}, {})'.format(n, n) for n in names)))
             ir = c.get('init_raises')
             if ir is not None:
-                body.append("        if {} == {} and type({}) is type({}): raise ValueError('init refuses')".format(
-                    ir[0], lit(ir[1]), ir[0], lit(ir[1])))
+                how = {'msg': "raise ValueError('init refuses')", 'bare': 'raise ValueError',
+                       'assert': 'assert False', 'keyerror': "raise KeyError('k')",
+                       'custom': "raise _Refusal()"}[c.get('init_raise_style', 'msg')]
+                body.append("        if {} == {} and type({}) is type({}): {}".format(
+                    ir[0], lit(ir[1]), ir[0], lit(ir[1]), how))
             for n in names:
                 if n == '_yatiml_extra':
                     body.append('        self._yatiml_extra = _yatiml_extra if _yatiml_extra is not None '
